@@ -263,6 +263,38 @@ class Report:
         return 1 if n_new else 0
 
 
+MODULES = {
+    "C01": "chk_tok", "C02": "chk_tok", "C03": "chk_tok", "C04": "chk_tok", "C08": "chk_tok",
+    "C20": "chk_reuse",
+    "C05": "chk_split", "C06": "chk_split", "C07": "chk_energy", "C09": "chk_split",
+    "C10": "chk_reader", "C19": "chk_reader", "C11": "chk_sources",
+    "C12": "chk_workers", "C13": "chk_workers", "C14": "chk_workers",
+    "C15": "chk_cli",
+    "C16": "chk_region", "C17": "chk_region", "C18": "chk_region",
+}
+
+TEST_TEMPLATE = """# Plain pytest replay of one recorded violation of {prop} (no explorer involved).
+#   {what}
+# Run:  /venv/bin/python -m pytest -q {path}      (fails while the violation persists)
+import json
+import os
+import sys
+
+sys.path.insert(0, {verif!r})
+sys.dont_write_bytecode = True
+
+
+def test_replay_{digest}():
+    from vlib import common
+    from vlib import {module} as mod
+
+    with open(os.path.join(os.path.dirname(__file__), "{digest}.json")) as fp:
+        case = common.unhex(json.load(fp)["case"])
+    complaint = mod.replay(case)
+    assert complaint is None, complaint
+"""
+
+
 def write_replay(prop, key, what, case):
     d = os.path.join(VERIF, "replays", prop)
     os.makedirs(d, exist_ok=True)
@@ -272,6 +304,11 @@ def write_replay(prop, key, what, case):
     with open(path, "w") as fp:
         json.dump(payload, fp, indent=1, sort_keys=True)
         fp.write("\n")
+    if prop in MODULES:
+        tpath = os.path.join(d, "test_%s.py" % digest)
+        with open(tpath, "w") as fp:
+            fp.write(TEST_TEMPLATE.format(prop=prop, what=" ".join(str(what).split())[:300], path=tpath, verif=VERIF,
+                                          digest=digest, module=MODULES[prop]))
     return path
 
 
